@@ -1,8 +1,10 @@
-(** * Sift2: the reordering functions never touch the [rctx] flag nor the
-      [roots] attribute (a purely syntactic frame, for every outcome) *)
+(** * Sift2: the reordering functions never touch the [rctx] flag, the
+      [roots] attribute nor [max_nodes] (a purely syntactic frame, for every outcome) *)
 From DD Require Export Sift1.
 
-Definition rr (s : st) : bool * list Z := (rctx s, roots s).
+Definition rr (s : st) : bool * list Z * option positive := (rctx s, roots s, max_nodes s).
+Lemma rr_max_nodes s s' : rr s' = rr s → max_nodes s' = max_nodes s.
+Proof. unfold rr. congruence. Qed.
 Definition pres {A} (m : MS A) : Prop := ∀ s r s', m s = (r, s') → rr s' = rr s.
 
 Lemma pres_ret {A} (a : A) : pres (ret a).
@@ -125,9 +127,14 @@ Qed.
 Lemma pres_collect_garbage roots : pres (collect_garbage roots).
 Proof. unfold collect_garbage. pres_all; try apply pres_gc_loop. Qed.
 
+Lemma pres_child_level v : pres (child_level v).
+Proof. unfold child_level. pres_all. Qed.
+Lemma pres_dep_count y X : pres (dep_count y X).
+Proof. unfold dep_count. repeat first [apply pres_child_level | pres1]. Qed.
+
 Ltac pres_all3 :=
   repeat first
-    [ apply pres_pop_order | apply pres_levels | apply pres_swap_collect
+    [ apply pres_dep_count | apply pres_pop_order | apply pres_levels | apply pres_swap_collect
     | apply pres_swap_up | apply pres_swap_indep | apply pres_swap_dep
     | apply pres_var_at_level | apply pres_level_of_var | apply pres_collect_garbage
     | pres1 ].
